@@ -640,11 +640,13 @@ func (ctx *RequestContext) File(filepath string) {
 }
 
 func (ctx *RequestContext) FileFromFS(filepath string, fs *FS) {
-	defer func(old string) {
-		ctx.Request.URI().SetPath(old)
-	}(string(ctx.Request.URI().Path()))
+	// SetPath percent-decodes its argument: the (already decoded) old path and the file path are
+	// quoted so that neither is decoded a second time
+	defer func(old []byte) {
+		ctx.Request.URI().SetPathBytes(old)
+	}(bytesconv.AppendQuotedPath(nil, ctx.Request.URI().Path()))
 
-	ctx.Request.URI().SetPath(filepath)
+	ctx.Request.URI().SetPathBytes(bytesconv.AppendQuotedPath(nil, []byte(filepath)))
 
 	fs.NewRequestHandler()(context.Background(), ctx)
 }
